@@ -3,7 +3,9 @@ package props
 import (
 	"bytes"
 	"fmt"
+	"github.com/dave/dst/decorator/resolver/gobuild"
 	"go/ast"
+	"go/build"
 	"go/parser"
 	"go/token"
 	"hash/fnv"
@@ -33,7 +35,7 @@ func init() {
 		Level: "exploration",
 		Rule: "cases: rounds of G in {2,8,32,128} goroutines, each with its own FileSet, Decorator and Restorer, running mixed operations (Parse, DecorateFile with import resolution, " +
 			"RestoreFile, Fprint with import management, Clone, dense decoration) over few distinct corpus files (so the shared goast import cache is both missed and hit) while sharing " +
-			"one goast.New() (lazy default resolver), one goast.WithResolver(map), one guess map and one simple map. The whole workload runs in a binary built with -race " +
+			"one goast.New() (lazy default resolver), one goast.WithResolver(map), one guess map, one simple map and one gobuild resolver (stateless FindPackage hook, partial hints, no explicit context). The whole workload runs in a binary built with -race " +
 			"(GORACE halt_on_error=0, log_path); the verifhook.Point handler yields or sleeps a seeded few microseconds outside the resolver's lock. Monitors: race-detector reports " +
 			"(counted from the log, de-duplicated by the pair of innermost dave/dst frames) - any report is a violation; each concurrent result (bytes, decorated tree by reflection " +
 			"deep-equality, error text) equals the result of the same call made alone beforehand; every call repeated in fresh decorators/restorers gives identical bytes (map iteration " +
@@ -233,6 +235,21 @@ func runC16(c *fw.Ctx) {
 			sharedMap := goast.WithResolver(guessMap)
 			simpleMap := simple.New(map[string]string{})
 			_ = simpleMap
+			// a read-only package-name resolver of the build-context kind, shared by every goroutine
+			// of the round: a stateless FindPackage hook (names as the guessing resolver gives them),
+			// hints for only some paths, no explicit Context
+			sharedBuild := &gobuild.RestorerResolver{
+				Dir:   "/",
+				Hints: map[string]string{"fmt": "fmt", "gopkg.in/yaml.v2": "yaml"},
+				FindPackage: func(ctxt *build.Context, importPath, fromDir string, mode build.ImportMode) (*build.Package, error) {
+					n, err := guessMap.ResolvePackage(importPath)
+					if err != nil {
+						return nil, err
+					}
+					return &build.Package{Name: n}, nil
+				},
+			}
+			sharedBuildGoast := goast.WithResolver(sharedBuild)
 			atomic.StoreInt64(&maxOverlap, 0)
 			hmu.Lock()
 			ilv.Reset()
@@ -246,6 +263,20 @@ func runC16(c *fw.Ctx) {
 				tree *dst.File
 			}
 			results := make([][]result, G)
+			// read-only resolvers must come out of the round as they went in
+			buildBefore := fmt.Sprintf("ctx=%p hints=%v dir=%q", sharedBuild.Context, sharedBuild.Hints, sharedBuild.Dir)
+			guessBefore := fmt.Sprintf("%v", map[string]string(guessMap))
+			// trees decorated beforehand, one private copy per goroutine: the first thing a goroutine
+			// does is restore its copy through the shared build-context resolver, with nothing
+			// (no shared lock) ordering it against the other goroutines
+			pre := make([]*dst.File, G)
+			preRef := make([]*c16Ref, G)
+			for g := 0; g < G; g++ {
+				if rf := refs[(g+round)%len(refs)]; rf.tree != nil && rf.impErr == "" {
+					pre[g] = dst.Clone(rf.tree).(*dst.File)
+					preRef[g] = rf
+				}
+			}
 			var wg sync.WaitGroup
 			start := make(chan struct{})
 			opsPer := c.Pick(6, 10)
@@ -255,10 +286,26 @@ func runC16(c *fw.Ctx) {
 					defer wg.Done()
 					gr := rand.New(rand.NewSource(c.Seed*1000003 + int64(round)*7919 + int64(g)))
 					<-start
+					if pre[g] != nil {
+						res := result{g: g, ref: preRef[g], op: "imports/restore-only-shared-gobuild"}
+						var buf bytes.Buffer
+						if err := decorator.NewRestorerWithImports("example.com/self", sharedBuild).Fprint(&buf, pre[g]); err != nil {
+							res.err = err.Error()
+						}
+						res.out = buf.String()
+						results[g] = append(results[g], res)
+					}
 					for k := 0; k < opsPer; k++ {
 						ref := refs[gr.Intn(len(refs))]
 						res := result{g: g, ref: ref}
-						switch gr.Intn(5) {
+						switch gr.Intn(6) {
+						case 5:
+							res.op = "imports/shared-gobuild"
+							out, tree, err := c16Imports(ref.src, sharedBuildGoast, sharedBuild)
+							res.out, res.tree = out, tree
+							if err != nil {
+								res.err = err.Error()
+							}
 						case 0:
 							res.op = "Parse+Fprint"
 							b, err := rtParsePrint(ref.src)
@@ -316,6 +363,12 @@ func runC16(c *fw.Ctx) {
 				}
 				abandoned = true
 				return
+			}
+			if after := fmt.Sprintf("ctx=%p hints=%v dir=%q", sharedBuild.Context, sharedBuild.Hints, sharedBuild.Dir); after != buildBefore {
+				c.Violate("shared-resolver-modified", "shared-resolver-modified:gobuild", fmt.Sprintf("%s: the shared gobuild resolver was %s before the round and is %s after it", id, buildBefore, after), "")
+			}
+			if after := fmt.Sprintf("%v", map[string]string(guessMap)); after != guessBefore {
+				c.Violate("shared-resolver-modified", "shared-resolver-modified:guess", id+": the shared guess map changed during the round", "")
 			}
 			overlap := atomic.LoadInt64(&maxOverlap)
 			c.Max("overlapping_resolver_calls", overlap)
@@ -435,7 +488,7 @@ func runC16(c *fw.Ctx) {
 				}
 				alone[fmt.Sprintf("f%d.go", k)] = b.String()
 			}
-			n := c.Pick(40, 150)
+			n := c.Pick(16, 150)
 			for rep := 0; rep < n; rep++ {
 				fset := token.NewFileSet()
 				pkg := &ast.Package{Name: "p", Files: map[string]*ast.File{}}
